@@ -24,7 +24,7 @@ pub uninterp spec fn visit_spec(node: MemberContextAll) -> Expr;
 impl Default for IdedExpr { #[verifier::external_body] fn default() -> (r: Self) ensures r == (IdedExpr { id: 0, expr: Expr::Unspecified }) { unimplemented!() } }
 impl Parser {
     #[verifier::external_body]
-    fn visit(&mut self, node: &MemberContextAll) -> (r: IdedExpr) ensures r.expr == visit_spec(*node) { unimplemented!() }
+    fn visit(&mut self, node: &MemberContextAll) -> (r: IdedExpr) ensures r.expr == visit_spec(*node), final(self).errors@.len() >= old(self).errors@.len() { unimplemented!() }
     #[verifier::external_body]
     fn report_error<E, S>(&mut self, token: &CommonToken, e: Option<E>, s: S) -> (r: IdedExpr) { unimplemented!() }
     /// for the two prefix operators no macro applies (find_expander only knows has/all/exists/exists_one/map/filter): a plain call node
